@@ -33,6 +33,16 @@ FAMILY = {
 }
 
 
+# texts that are NOT models (a name with two differing definitions over the same variables): every permutation must be refused alike -
+# the outcome (refusal, or the model obtained) must never depend on which of the two lines comes first
+FAMILY["conflict"] = [("parameters", "", ["g_a=2.0", "g_b=3.0"]), ("states", "", ["v=1.0", "w=2.0"]),
+                      ("expressions", "", ["i_tot = g_a*v + g_b*w", "dv_dt = -i_tot", "i_tot = g_a*v - g_b*w", "dw_dt = v - w"])]
+FAMILY["conflict-two-components"] = [("parameters", "A", ["p=2.0"]), ("states", "A", ["x=1.0"]), ("states", "B", ["y=2.0"]),
+                                     ("expressions", "A", ["a = p*x", "dx_dt = a - x"]), ("expressions", "B", ["dy_dt = a*y"]), ("expressions", "A", ["a = x*p*2"])]
+FAMILY["repeated-verbatim"] = [("parameters", "", ["p=2.0", "q=3.0"]), ("states", "", ["x=1.0", "y=2.0"]),
+                               ("expressions", "", ["a = p*x + q", "dx_dt = a - x", "a = p*x + q", "dy_dt = a*y"])]
+
+
 def render(blocks):
     lines = []
     for kind, comp, ents in blocks:
@@ -101,9 +111,12 @@ _base_cache = {}
 
 
 def observe(text):
-    ode = drive.load(text)
-    py = drive.py_code(ode, scheme=list(models.SCHEMES))
-    c = drive.c_code(ode, scheme=list(models.SCHEMES))
+    try:
+        ode = drive.load(text)
+        py = drive.py_code(ode, scheme=list(models.SCHEMES))
+        c = drive.c_code(ode, scheme=list(models.SCHEMES))
+    except Exception as ex:
+        return None, "refused", type(ex).__name__
     return ode, py, c
 
 
@@ -123,10 +136,18 @@ def run_item(item):
             res["failures"].append({"finding": f"{ID}|{cls}|{m}|{key.split('|')[0]}", "what": f"{m} {key}: {what}", "size": len(key),
                                     "detail": {"text": text, "canonical": render(FAMILY[m])},
                                     "replay_item": {"key": f"{m}|{key}", "kind": "perm", "model": m, "perms": [[key, blocks]]}})
-        try:
-            ode, py, c = observe(text)
-        except Exception as ex:
-            fail("permuted-text-rejected", f"{type(ex).__name__}: {ex}"[:300])
+        ode, py, c = observe(text)
+        if (py == "refused") != (py0 == "refused"):
+            if py == "refused":
+                fail("permuted-text-rejected", f"the canonical text loads but this permutation is refused ({c})")
+            else:
+                fail("refusal-depends-on-order", f"the canonical text is refused ({c0}) but this permutation is accepted")
+            continue
+        if py == "refused":
+            res["transitions"] += 1
+            res["traces"] += 1
+            res["evaluations"] += 1
+            res["nontrivial"] += 1
             continue
         res["transitions"] += 3
         res["traces"] += 1
